@@ -334,6 +334,38 @@ def name_strip_once(ctx):
                .format(ci.name, unparse(b[0]) if b else ''))
     ctx.ob(R, 'tool-classes|found', n >= 4, None,
            'only {} tool classes with default_name+output_file'.format(n))
+    # the output name is the same function of `name` for every name: a
+    # decision taken on the *content* of the name (name.endswith('.o'),
+    # '.' in name, ...) maps two different names to one output
+    F = _facts(ctx)
+    for ci in sorted(repo.classes.values(), key=lambda c: c.fq):
+        if not ci.module.name.startswith('bfg9000.tools') or \
+                'output_file' not in ci.methods:
+            continue
+        m = ci.methods['output_file']
+        fn = m._func
+        ps = Q.params(m)
+        if len(ps) < 2 or ps[1] != 'name':
+            continue
+        bad = []
+        for n_ in walk_no_nested(m):
+            if isinstance(n_, (ast.If, ast.IfExp, ast.While)):
+                t = n_.test
+                skip = set()
+                for c in ast.walk(t):
+                    if isinstance(c, ast.Call) and isinstance(
+                            c.func, ast.Name) and c.func.id in (
+                                'len', 'isinstance'):
+                        skip |= {id(x) for x in ast.walk(c)}
+                for x in ast.walk(t):
+                    if isinstance(x, ast.Name) and id(x) not in skip and \
+                            param_of(F.atoms(x, fn), 'name'):
+                        bad.append(unparse(t))
+                        break
+        ctx.ob(R, ci.fq + '|name-independent-decisions', not bad, m,
+               '{}.output_file decides on the content of the name ({}): '
+               'two different names can get the same output'.format(
+                   ci.name, '; '.join(bad)[:120]))
 
 
 # write-effect sites: (function fq, description, how the path is obtained)
